@@ -161,7 +161,7 @@ func (e *Engine) verifyFunc(key string) (res *FuncResult) {
 		// propagates clauses: a failed call of the named callee on this path means this function fails
 		for _, p := range c.Propagates {
 			flag, _ := st2.ghostV[failedKey(p.Label)].(*Term)
-			if flag == nil || flag.IsFalse() || len(rets) == 0 {
+			if flag == nil || flag.IsFalse() || len(rets) == 0 || c.TrackOnly[p.Label] {
 				continue
 			}
 			ev, ok := rets[len(rets)-1].(IfaceV)
